@@ -27,6 +27,7 @@ type c12Scn struct {
 	emptyDB bool   // request-side scenario on an empty store
 	secret  bool   // stored response carries X-Secret
 	twoGets bool   // request-side scenario: rewritten CC on the first (storing) request, then plain GET
+	on304   bool   // the field under test arrives on the 304 that freshens the stored response; a third request observes it
 }
 
 var c12Scns = []c12Scn{
@@ -40,6 +41,8 @@ var c12Scns = []c12Scn{
 	{name: "resp must-understand", side: "resp", dirs: []string{"must-understand", "max-age=100"}, dec: 0, status: 299, elapsed: 10, follow: "200"},
 	{name: "resp qualified no-cache", side: "resp", dirs: []string{`no-cache="X-Secret"`, "max-age=100"}, dec: 0, status: 200, elapsed: 10, follow: "304", secret: true},
 	{name: "resp three directives", side: "resp", dirs: []string{"max-age=100", "no-cache", "stale-if-error=5"}, dec: 1, status: 200, elapsed: 10, follow: "304"},
+	{name: "304 no-cache", side: "resp", on304: true, dirs: []string{"no-cache", "max-age=3600"}, dec: 0, status: 200, elapsed: 10, otherCC: "", follow: "304"},
+	{name: "304 max-age", side: "resp", on304: true, dirs: []string{"max-age=3600", "stale-if-error=1"}, dec: 0, status: 200, elapsed: 10, otherCC: "", follow: "304"},
 	{name: "req no-cache", side: "req", dirs: []string{"no-cache", "max-stale=5"}, dec: 0, status: 200, elapsed: 10, otherCC: "max-age=100", follow: "304"},
 	{name: "req no-store", side: "req", dirs: []string{"no-store", "max-stale=5"}, dec: 0, status: 200, elapsed: 10, otherCC: "max-age=100", follow: "200", twoGets: true},
 	{name: "req max-age", side: "req", dirs: []string{"max-age=5", "max-stale=0"}, dec: 0, status: 200, elapsed: 50, otherCC: "max-age=100", follow: "304"},
@@ -91,7 +94,9 @@ func (s *c12Scn) run(x *mc.X, lines []string, verbose bool) string {
 	}
 	// first exchange
 	respH := http.Header{}
-	if s.side == "resp" {
+	if s.on304 {
+		respH.Set("Cache-Control", "max-age=1")
+	} else if s.side == "resp" {
 		setCC(respH, lines)
 	} else if s.otherCC != "" {
 		respH.Set("Cache-Control", s.otherCC)
@@ -127,7 +132,13 @@ func (s *c12Scn) run(x *mc.X, lines []string, verbose bool) string {
 		cond := c.Header.Get("If-None-Match") != "" || c.Header.Get("If-Modified-Since") != ""
 		switch {
 		case s.follow == "304" && cond:
-			return o.Respond(c, RS{Status: 304, NoTok: true, H: H("ETag", `"v1"`)}), nil
+			h304 := H("ETag", `"v1"`)
+			if s.on304 {
+				for _, l := range lines {
+					h304 = append(h304, [2]string{"Cache-Control", l})
+				}
+			}
+			return o.Respond(c, RS{Status: 304, NoTok: true, H: h304}), nil
 		case s.follow == "500":
 			return o.Respond(c, RS{Status: 500}), nil
 		}
@@ -143,6 +154,14 @@ func (s *c12Scn) run(x *mc.X, lines []string, verbose bool) string {
 	obs(o2, stored)
 	if verbose {
 		logObs(x, fmt.Sprintf("GET after %ds req-CC=%q (origin would answer %s)", s.elapsed, req.Header.Values("Cache-Control"), s.follow), o2)
+	}
+	if s.on304 {
+		world.Advance(secs(5))
+		o3 := w.Do(world.Req("GET", U))
+		obs(o3, stored)
+		if verbose {
+			logObs(x, "GET 5 s after the 304", o3)
+		}
 	}
 	return strings.Join(vec, " ; ")
 }
